@@ -56,31 +56,32 @@ class Result(object):
         return [ln[2:] for ln in self.lines if ln.startswith("F ")]
 
     def crash_signature(self):
-        """(kind, site) - the error kind and the first library frame."""
+        """(kind, site) - the error kind and the first library frame / assert site."""
+        import re
         kind = "%s:%d" % (self.kind, self.code)
         site = "?"
         txt = self.stderr
         for ln in txt:
-            if "cmi_assert_failed" in ln or "Assert" in ln and "failed" in ln:
-                pass
-        for i, ln in enumerate(txt):
+            m = re.search(r'(\w+) \((\d+)\):\s+Fatal: Assert "(.*)" failed, source file (\S+?),', ln)
+            if m:
+                # library assertion: function, condition, file (line numbers and seeds left out)
+                return "assert", "%s:%s:%s" % (m.group(4), m.group(1), m.group(3))
+            if "runtime error:" in ln:
+                k = ln.split("runtime error:")[1].strip()
+                k = re.sub(r"0x[0-9a-f]+", "ADDR", k)
+                loc = ln.split(": runtime error")[0].split("/")[-1]
+                loc = ":".join(loc.split(":")[:1])
+                return "ubsan:" + k[:70], loc
             if "ERROR: AddressSanitizer" in ln:
                 kind = "asan:" + ln.split("AddressSanitizer:")[1].split()[0]
                 break
-            if "runtime error:" in ln:
-                kind = "ubsan:" + ln.split("runtime error:")[1].strip()[:60]
-                site = ln.split(": runtime error")[0].split("/")[-1]
-                return kind, site
-            if "Assertion" in ln or "assert" in ln.lower() and "failed" in ln.lower():
-                kind = "assert"
-                site = ln.strip()[-120:]
-                return kind, site
         for ln in txt:
             s = ln.strip()
             if s.startswith("#") and " in " in s:
                 fn = s.split(" in ", 1)[1].split()[0]
                 if fn.startswith(("cmb_", "cmi_", "cimba_")) or "/repo/" in s:
-                    if fn.startswith(("cmi_assert_failed", "cmi_memcpy", "cmi_memset", "cmi_malloc")):
+                    if fn.startswith(("cmi_assert_failed", "cmi_memcpy", "cmi_memset", "cmi_malloc",
+                                      "cmi_logger_fatal")):
                         continue
                     site = fn
                     break
